@@ -44,6 +44,33 @@ fn choose_point() -> (f64, f64) {
   unsafe { G_X = x; G_Y = y; }
   (x, y)
 }
+/// CONTRACT of shift_rotate_scale (first step of hash_with_dxdy): for every point of the net, the two
+/// outputs are the rotated coordinates u = x + (y+1), v = (y+1) + (8-x) scaled by nside/2, exactly
+/// (power-of-two scaling through the exponent bits) -- in particular finite, also when u or v is 0.
+/// finite-and-in-range part alone (cheap): 0 <= outputs <= 5.5 nside, never NaN / infinite
+fn check_srs_finite(d: u8) {
+  let l = Layer::new(d);
+  let (x, y) = choose_point();
+  let mut xy = (x, y);
+  l.shift_rotate_scale(&mut xy);
+  let n = (1u64 << d) as f64;
+  // a point numerically on a gore edge may have u or v = -1 ulp(1): tolerance 1e-15 in units of the base cell
+  assert!(xy.0 >= -1e-15 * n && xy.0 <= 5.5 * n && xy.1 >= -1e-15 * n && xy.1 <= 5.5 * n, "C03 rotated, scaled coordinates are finite and within [0, 5.5 nside]");
+  kani::cover!(x + (y + 1.0) == 0.0, "u exactly 0 (south-west edge of base cell 8, lon = 0)");
+}
+fn check_srs(d: u8) {
+  let l = Layer::new(d);
+  let (x, y) = choose_point();
+  let mut xy = (x, y);
+  l.shift_rotate_scale(&mut xy);
+  let c = 0.5 * ((1u64 << d) as f64);
+  let yp = y + 1.0;
+  let u = x + yp; let v = yp + (8.0 - x);
+  assert!(xy.0 == xy.0 && xy.1 == xy.1 && xy.0.abs() < 1e300 && xy.1.abs() < 1e300, "C03 rotated, scaled coordinates are finite");
+  assert!((xy.0 - u * c).abs() <= 1e-290 && (xy.1 - v * c).abs() <= 1e-290, "C03 shift_rotate_scale == (u, v) * nside/2 exactly");
+  kani::cover!(u == 0.0, "u exactly 0 (south-west edge of base cell 8, lon = 0)");
+}
+
 /// hash_with_dxdy: cell < 12*4^d, offsets finite in [0,1], and the position recomposed from
 /// (cell, dx, dy) in the projection plane is the position itself (modulo 8 in x) to 1e-13/nside.
 fn check_hash_dxdy(d: u8) {
@@ -69,18 +96,20 @@ fn check_hash_dxdy(d: u8) {
 }
 
 macro_rules! per_depth {
-  ($($d:literal => $c:ident, $p:ident, $h:ident);* $(;)?) => { $(
+  ($($d:literal => $c:ident, $p:ident, $h:ident, $s:ident, $f:ident);* $(;)?) => { $(
     #[kani::proof] #[kani::unwind(33)] fn $c() { check_center($d) }
     #[kani::proof] #[kani::unwind(33)] fn $p() { check_center_panic($d) }
+    #[kani::proof] #[kani::unwind(4)] fn $s() { check_srs($d) }
+    #[kani::proof] #[kani::unwind(4)] fn $f() { check_srs_finite($d) }
     #[kani::proof] #[kani::stub(crate::proj, ghost_proj)] #[kani::unwind(4)] fn $h() { check_hash_dxdy($d) }
   )* }
 }
 per_depth! {
-  0 => geom_center_d00, geom_panic_d00, geom_hdxdy_d00; 1 => geom_center_d01, geom_panic_d01, geom_hdxdy_d01;
-  2 => geom_center_d02, geom_panic_d02, geom_hdxdy_d02; 3 => geom_center_d03, geom_panic_d03, geom_hdxdy_d03;
-  8 => geom_center_d08, geom_panic_d08, geom_hdxdy_d08; 9 => geom_center_d09, geom_panic_d09, geom_hdxdy_d09;
-  16 => geom_center_d16, geom_panic_d16, geom_hdxdy_d16; 17 => geom_center_d17, geom_panic_d17, geom_hdxdy_d17;
-  24 => geom_center_d24, geom_panic_d24, geom_hdxdy_d24; 29 => geom_center_d29, geom_panic_d29, geom_hdxdy_d29;
+  0 => geom_center_d00, geom_panic_d00, geom_hdxdy_d00, geom_srs_d00, geom_srsfin_d00; 1 => geom_center_d01, geom_panic_d01, geom_hdxdy_d01, geom_srs_d01, geom_srsfin_d01;
+  2 => geom_center_d02, geom_panic_d02, geom_hdxdy_d02, geom_srs_d02, geom_srsfin_d02; 3 => geom_center_d03, geom_panic_d03, geom_hdxdy_d03, geom_srs_d03, geom_srsfin_d03;
+  8 => geom_center_d08, geom_panic_d08, geom_hdxdy_d08, geom_srs_d08, geom_srsfin_d08; 9 => geom_center_d09, geom_panic_d09, geom_hdxdy_d09, geom_srs_d09, geom_srsfin_d09;
+  16 => geom_center_d16, geom_panic_d16, geom_hdxdy_d16, geom_srs_d16, geom_srsfin_d16; 17 => geom_center_d17, geom_panic_d17, geom_hdxdy_d17, geom_srs_d17, geom_srsfin_d17;
+  24 => geom_center_d24, geom_panic_d24, geom_hdxdy_d24, geom_srs_d24, geom_srsfin_d24; 29 => geom_center_d29, geom_panic_d29, geom_hdxdy_d29, geom_srs_d29, geom_srsfin_d29;
 }
 
 // ---- C19 bilinear interpolation (hash_with_dxdy replaced by its contract) -------------------------
